@@ -5,6 +5,7 @@ pub mod c02;
 pub mod c03;
 pub mod c04;
 pub mod c05;
+pub mod c06;
 pub mod c07;
 pub mod c08;
 pub mod c09;
@@ -29,6 +30,7 @@ fn table(prop: &str) -> Option<(RunFn, ReplayFn)> {
         "C03" => (c03::run, c03::replay),
         "C04" => (c04::run, c04::replay),
         "C05" => (c05::run, c05::replay),
+        "C06" => (c06::run, c06::replay),
         "C07" => (c07::run, c07::replay),
         "C08" => (c08::run, c08::replay),
         "C09" => (c09::run, c09::replay),
